@@ -114,7 +114,7 @@ Section Inst.
     p2wpkh_encode sha256 ripemd160 segwit_encode hrp pub = Ok s ->
     p2wpkh_decode segwit_decode hrp s = Ok (h160 pub).
   Proof.
-    intros Hh. apply (Lemmas.AddrText.p2wpkh_decode_encode sha256 ripemd160 segwit_encode segwit_decode rip_ok
+    intros Hh. apply (Lemmas.AddrText.p2wpkh_decode_encode sha256 ripemd160 segwit_encode segwit_decode rip_len rip_ok
                         hrp_enc_ok segwit_prog_ok segwit_rt hrp pub s Hh).
     apply prog_ok_v0_20. unfold hash160. apply rip_len.
   Qed.
